@@ -223,6 +223,6 @@ func c14mb(nseg, maxLen, ifsLen int) {
 	}
 }
 
-func C14_MB2() { c14mb(2, 2, 2) }
-func C14_MB3() { c14mb(3, 2, 2) }
+func C14_MB2()   { c14mb(2, 2, 2) }
+func C14_MB3()   { c14mb(3, 2, 2) }
 func C14_MB1L4() { c14mb(1, 4, 2) }
